@@ -282,7 +282,8 @@ def _parse_directive_options(
             value = None
         try:
             converted_value = converter(value)
-        except (ValueError, TypeError) as error:
+        except (ValueError, TypeError, AttributeError) as error:
+            # (AttributeError: several docutils converters call str methods on an empty - None - value)
             validation_errors.append(
                 ParseWarnings(
                     f"Invalid option value for {name!r}: {value}: {error}",
